@@ -4,10 +4,9 @@
 #include "c13_addressable_heap.hpp"
 
 namespace c13 {
-void register_addr_2(std::vector<Config>& out, bool thorough) {
-    add_addr<uint32_t, 4>(out, thorough, true);
-    add_addr<uint32_t, 5>(out, thorough, false);
-    add_addr<uint32_t, 6>(out, thorough, false);
-    add_addr<uint64_t, 3>(out, thorough, false);
+void register_addr_3(std::vector<Config>& out, bool thorough) {
+    add_addr<uint32_t, 7>(out, thorough, false);
+    add_addr<uint32_t, 8>(out, thorough, false);
+    add_addr<uint16_t, 8>(out, thorough, false);
 }
 }  // namespace c13
